@@ -6,28 +6,34 @@
 #include <stdlib.h>
 #define VP_MAXALLOC 12
 _Bool in_fail[VP_MAXALLOC];
-int vp_nalloc = 0, vp_live = 0, vp_failed = 0, vp_badfree = 0;
-static void *vp_blocks[VP_MAXALLOC];
-static void vp_alloc_init(void) { for (int i = 0; i < VP_MAXALLOC; i++) { in_fail[i] = vp_bool_i("in_fail", i); vp_blocks[i] = 0; } }
-static void *vp_track(void *p, int idx) { __CPROVER_assume(p != 0); vp_blocks[idx] = p; vp_live++; return p; }
-void *vp_malloc(size_t s) {
+int vp_nalloc = 0, vp_live = 0, vp_failed = 0;
+static void vp_alloc_init(void) { for (int i = 0; i < VP_MAXALLOC; i++) in_fail[i] = vp_bool_i("in_fail", i); }
+static _Bool vp_should_fail(void) {
     __CPROVER_assert(vp_nalloc < VP_MAXALLOC, "S-ALLOC: allocation budget of the harness");
-    int idx = vp_nalloc++;
-    if (in_fail[idx]) { vp_failed++; return 0; }
-    return vp_track(malloc(s ? s : 1), idx);
+    _Bool f = in_fail[vp_nalloc];
+    vp_nalloc++;
+    if (f) vp_failed++;
+    return f;
+}
+void *vp_malloc(size_t s) {
+    if (vp_should_fail()) return 0;
+    void *p = malloc(s ? s : 1);
+    __CPROVER_assume(p != 0);
+    vp_live++;
+    return p;
 }
 void *vp_calloc(size_t n, size_t s) {
-    __CPROVER_assert(vp_nalloc < VP_MAXALLOC, "S-ALLOC: allocation budget of the harness");
-    int idx = vp_nalloc++;
-    if (in_fail[idx]) { vp_failed++; return 0; }
-    return vp_track(calloc(n ? n : 1, s ? s : 1), idx);
+    if (vp_should_fail()) return 0;
+    void *p = calloc(n ? n : 1, s ? s : 1);
+    __CPROVER_assume(p != 0);
+    vp_live++;
+    return p;
 }
 void *vp_realloc(void *p, size_t s) { __CPROVER_assert(0, "S-ALLOC: realloc is not used by the library"); return 0; }
+// double free / free of a non-heap pointer: CBMC's built-in preconditions of free() ("double free", "free argument
+// must be dynamic object") are proof obligations of every job; natively ASan reports them.
 void vp_free(void *p) {
     if (!p) return;
-    int found = 0;
-    for (int i = 0; i < VP_MAXALLOC; i++) if (vp_blocks[i] == p) { vp_blocks[i] = 0; found = 1; break; }
-    if (!found) { vp_badfree++; __CPROVER_assert(0, "no block is freed twice (or freed without being allocated)"); return; }
     vp_live--;
     free(p);
 }
